@@ -128,12 +128,18 @@ func vwCanonOpt(o *query.IteratorOptions) string {
 		o.StripName, o.Dedupe, o.Ordered, o.MaxSeriesN)
 }
 
+// a sketch is compared through what it is for: its estimate, and the estimate after merging a fixed probe set
+// (the binary form of a sparse sketch depends on map iteration order)
 func vwCanonSketch(s estimator.Sketch) string {
 	if s == nil {
 		return "<nil>"
 	}
-	b, err := s.MarshalBinary()
-	return fmt.Sprintf("sketch(count=%d bytes=%x err=%v)", s.Count(), b, err)
+	c := s.Clone()
+	merged := "?"
+	if err := c.Merge(vwSketch(5)); err == nil {
+		merged = fmt.Sprint(c.Count())
+	}
+	return fmt.Sprintf("sketch(count=%d merged=%s)", s.Count(), merged)
 }
 
 func vwCanonBytes(a [][]byte) string {
